@@ -25,6 +25,7 @@ import (
 	"bytes"
 	"context"
 	"fmt"
+	"github.com/itchio/wharf/pwr/bowl"
 	"runtime/debug"
 	"sort"
 	"strings"
@@ -65,7 +66,7 @@ func main() {
 	runner.Main(runner.Config{
 		ID:    "C18",
 		Level: "model_checking",
-		Rule:  "bounded exhaustive enumeration: signed size in {0,1,B-1,B,B+1,2B,2B+1 (thorough: +3B)} x written content = signed content with every assignment of {unchanged, first byte inverted, last byte inverted, replaced by the next signed block (full blocks only), replaced by its weak twin (same rolling checksum, other bytes)} to its blocks | truncated to every length of {0,1,B-1,B,B+1,2B,size-1} below the size | extended by {1,B-1,B,B+1} (thorough: every single-block alteration combined with every length change) ; plus a structured family (signed contents made of zero blocks and repeated blocks: Z.Z, A.A, A.A.A, Z.A, A.Z, with tails; every assignment of {unchanged, fresh random block, zero block, previous signed block} to the blocks) x slicing = every set of <=3 cuts at positions {1,B-1,B,B+1,2B-1,2B,len-1} inside the written range, plus uniform writes of 1, 4096, 32768 and B+1 bytes x mode {error, wound, wound through AggregateWounds}. Each case drives the real ValidatingPool writer over verif/lib/mempool; after a failed Write no further Write is issued and the writer is closed, as a caller with a deferred Close does. Oracle by direct byte comparison per block. Non-trivial = the written content has at least one differing or surplus block and at least one boundary between two Write calls lies inside a block.",
+		Rule:  "bounded exhaustive enumeration: signed size in {0,1,B-1,B,B+1,2B,2B+1 (thorough: +3B)} x written content = signed content with every assignment of {unchanged, first byte inverted, last byte inverted, replaced by the next signed block (full blocks only), replaced by its weak twin (same rolling checksum, other bytes)} to its blocks | truncated to every length of {0,1,B-1,B,B+1,2B,size-1} below the size | extended by {1,B-1,B,B+1} (thorough: every single-block alteration combined with every length change) ; plus a structured family (signed contents made of zero blocks and repeated blocks: Z.Z, A.A, A.A.A, Z.A, A.Z, with tails; every assignment of {unchanged, fresh random block, zero block, previous signed block} to the blocks) x slicing = every set of <=3 cuts at positions {1,B-1,B,B+1,2B-1,2B,len-1} inside the written range, plus uniform writes of 1, 4096, 32768 and B+1 bytes x mode {error, wound, wound through AggregateWounds}. Sub-check pool-bowl: the real pool bowl (Transpose, and its entry writer fed in 32KiB pieces) writing the same contents into a validating pool in error mode: refused iff some written block differs from or lies beyond the signed blocks. Each case drives the real ValidatingPool writer over verif/lib/mempool; after a failed Write no further Write is issued and the writer is closed, as a caller with a deferred Close does. Oracle by direct byte comparison per block. Non-trivial = the written content has at least one differing or surplus block and at least one boundary between two Write calls lies inside a block.",
 		Assumptions: []string{
 			"block contents are seeded pseudo-random (VERIF_SEED); altered bytes are bit inversions of single bytes, or whole signed blocks moved by one position",
 			"sequential part only: the goroutines of wound mode (relay, aggregator, a draining consumer) run under the Go scheduler; their interleavings are enumerated by the scheduler-controlled sub-check wound-interleavings (variant sched)",
@@ -450,6 +451,103 @@ func body(w *runner.W) {
 		}
 		r.Outcome(fmt.Sprintf("%s %s records=%d", c.Mode, bk, len(obs.records)))
 		checkWoundMode(c, r, e, obs, signed, wr, n, bk)
+	}
+
+	// the pool bowl writing into a validating pool (error mode): a whole-file copy
+	// (Transpose) and an entry writer fed in 32 KiB pieces must be refused exactly when the
+	// content is not the signed one — also when only the trailing partial block differs,
+	// whose verdict comes with Close
+	pb := runner.NewSub(w, "pool-bowl", func(c Case, r *runner.Rec) {
+		key := fmt.Sprintf("%s/%d", c.Signed, c.Size)
+		fx := fixtures[key]
+		if fx == nil {
+			signedOf[key] = signedContent(c.Size, w.Seed)
+			fx = newFixture(signedOf[key], w.Seed)
+			fixtures[key] = fx
+		}
+		signed := signedOf[key]
+		wr := written(c, signed, w.Seed)
+		// what the statement demands: a failure iff some written block differs from the signed
+		// block at its position or lies beyond the signed blocks (a block-aligned prefix of the
+		// signed content — including nothing at all — passes)
+		e := expectations(signed, wr, [][]byte{wr})
+		mustFail := e.firstBad >= 0
+		same := bytes.Equal(wr, signed)
+		if mustFail {
+			r.Nontrivial()
+		}
+		r.Outcome(fmt.Sprintf("%s same=%v must-fail=%v", c.Mode, same, mustFail))
+		target := &tlc.Container{}
+		for i, f := range fx.container.Files {
+			size := f.Size
+			if i == fileIndex {
+				size = int64(len(wr))
+			}
+			target.Files = append(target.Files, &tlc.File{Path: f.Path, Mode: f.Mode, Size: size})
+		}
+		inner := mempool.New([][]byte{nil, nil, nil})
+		vp := &pwr.ValidatingPool{Pool: inner, Container: fx.container, Signature: fx.sig}
+		bw, err := bowl.NewPoolBowl(bowl.PoolBowlParams{TargetContainer: target, SourceContainer: fx.container,
+			TargetPool: mempool.New([][]byte{nil, nil, wr}), OutputPool: vp})
+		if err != nil {
+			panic(err)
+		}
+		var opErr error
+		switch c.Mode {
+		case "transpose":
+			opErr = bw.Transpose(bowl.Transposition{TargetIndex: fileIndex, SourceIndex: fileIndex})
+		case "entry-writer":
+			ew, err := bw.GetWriter(fileIndex)
+			if err != nil {
+				r.Failf("pool-bowl:getwriter-error", "%v", err)
+				return
+			}
+			if _, err := ew.Resume(nil); err != nil {
+				r.Failf("pool-bowl:resume-error", "%v", err)
+				return
+			}
+			for off := 0; off < len(wr) && opErr == nil; off += 32 * 1024 {
+				end := off + 32*1024
+				if end > len(wr) {
+					end = len(wr)
+				}
+				_, opErr = ew.Write(wr[off:end])
+			}
+			if opErr == nil {
+				opErr = ew.Finalize()
+			}
+			if cErr := ew.Close(); opErr == nil {
+				opErr = cErr
+			}
+		}
+		var got []byte
+		if b := inner.Written[fileIndex]; b != nil {
+			got = b.Bytes()
+		}
+		switch {
+		case same && opErr != nil:
+			r.Failf("pool-bowl:signed-content-refused:"+c.Mode, "%v", opErr)
+		case same && !bytes.Equal(got, signed):
+			r.Failf("pool-bowl:inner-differs:"+c.Mode, "the inner pool holds %d bytes, signed %d", len(got), len(signed))
+		case mustFail && opErr == nil:
+			r.Failf("pool-bowl:bad-content-accepted:"+c.Mode, "block %d of the written content differs from the signed block (alterations %q, %d of %d bytes) but the copy went through without an error", e.firstBad, c.Alt, len(wr), len(signed))
+		case !mustFail && opErr != nil:
+			r.Failf("pool-bowl:prefix-refused:"+c.Mode, "a block-aligned prefix of the signed content (%d of %d bytes) was refused: %v", len(wr), len(signed), opErr)
+		case !mustFail && !bytes.Equal(got, wr):
+			r.Failf("pool-bowl:inner-differs:"+c.Mode, "the inner pool holds %d bytes, written %d", len(got), len(wr))
+		}
+	})
+	if pb.Active() {
+		for _, size := range []int{0, 1, 700, B - 1, B, B + 1, 2 * B, 2*B + 5000} {
+			for _, cw := range contents(size, true) {
+				for _, mode := range []string{"transpose", "entry-writer"} {
+					c := cw
+					c.Mode = mode
+					pb.Do(c)
+				}
+			}
+		}
+		pb.Done()
 	}
 
 	for _, mode := range []string{"error", "wound", "wound-aggregate"} {
